@@ -30,7 +30,7 @@ Inductive rhs :=
 | RCapture (calls : list (bytes * list bytes))   (* $(p a b | q c) : names and already quoted arguments *)
 | RStatus                                        (* $? *)
 | RExists (a : atom)                             (* $(if [ -e "a" ]; then echo 1; else echo 0; fi) *)
-| RCat (a : atom)                                (* $(cat "a") *)
+| RCat (a : atom)                                (* $(cat -- "a") *)
 | RRedir (a : atom).                             (* $(if [ "a" -eq "1" ]; then echo ">>"; else echo ">"; fi) *)
 
 Definition binop_text (op : binop) : bytes :=
@@ -70,7 +70,7 @@ Definition render_rhs (r : rhs) : bytes :=
   | RCapture calls => bs "$(" ++ render_calls calls ++ bs ")"
   | RStatus => bs "$?"
   | RExists a => bs "$(if [ -e " ++ q ++ render_atom a ++ q ++ bs " ]; then echo 1; else echo 0; fi)"
-  | RCat a => bs "$(cat " ++ q ++ render_atom a ++ q ++ bs ")"
+  | RCat a => bs "$(cat -- " ++ q ++ render_atom a ++ q ++ bs ")"
   | RRedir a => bs "$(if [ " ++ q ++ render_atom a ++ q ++ bs " -eq " ++ q ++ bs "1" ++ q ++ bs " ]; then echo " ++ q ++ bs ">>" ++ q
                 ++ bs "; else echo " ++ q ++ bs ">" ++ q ++ bs "; fi)"
   end.
